@@ -58,7 +58,9 @@ TEXT = {
   "technique": "Coq proof (field-preservation static analysis of the IR + 256-value sweep lifted by forallb_forall) + correspondence + 256-first-byte oracle",
  },
  "C10": {
-  "level": "Theorems C10_frame (every encoder output = first byte, minimal vbint of the body length, body), C10_one_write (exactly one Write with the whole frame; "
+  "level": "Theorem C10_whole states the property in one piece about the code as it runs (two passes, guarded positional writes): if WriteTo returns, the writer got exactly one "
+           "Write with [first byte] ++ [minimal vbint of the body length] ++ body, the dry run fill(_LEN, 0) returned that length, (n, err) are what the writer reports, and the size "
+           "printed by String() is that length. It is put together from: C10_frame (every encoder output = first byte, minimal vbint of the body length, body), C10_one_write (exactly one Write with the whole frame; "
            "(n, err) as the writer reports), C10_undefined, C10_total (no panic under the representation invariant), C10_string_size (the 'N bytes' token of "
            "String() is the frame length). The Go mechanism itself is modelled (Model/Fill.v): every wire type's fill/fillProp as a guarded write at a position into a buffer "
            "of fixed length that returns the width whether or not it wrote, the encoder IR run as `i += f(b, i)`, the dry run on the nil slice, make, the second pass. "
